@@ -3,6 +3,11 @@
 // create_rune_entry, update}.  Properties C10 (mint step), C11 (etching rules, entry creation),
 // C08 (burn accounting), C37 (RuneEtched event).  Tables, the event channel and HashMap are the
 // environment shims of contracts/ord/shim/env.rs (assumed contracts: finite maps, ordered delivery).
+//
+// STATUS (measured 2026-09-22): c10_mint_step and c08_update_adds_burns did not finish under CBMC in
+// 20 minutes (cadical and kissat) and are tier `manual`: written, compiled on every run, but run by
+// neither command and counted nowhere.  c08_unallocated_moves_input_balances finishes (about 5
+// minutes) and is in the thorough tier.
 #![allow(unused_imports, dead_code, static_mut_refs)]
 use super::*;
 #[cfg(not(kani))]
@@ -110,7 +115,7 @@ fn forget<T>(r: Result<T>) -> Option<T> {
 /// returned is the terms' amount.  With RuneEntry::mintable's contract (mints < cap required,
 /// c10_mintable_exact) the count can never pass the cap.
 //# props: C10
-//# tier: thorough
+//# tier: manual
 //# kind: complete (every rune entry, rune id, queried id and height; the table holds zero or one entry - other keys are untouched by the finite-map contract of the table)
 //# fns: index::updater::rune_updater::RuneUpdater::mint
 //# assume: redb::Table behaves as a finite map (shim contracts/ord/shim/env.rs)
@@ -164,7 +169,7 @@ pub fn c10_mint_step() {
 /// update(): every rune's accumulated burn of the block is added to its entry's `burned`, nothing
 /// else in the entry changes, no other entry is written.
 //# props: C08
-//# tier: thorough
+//# tier: manual
 //# kind: bounded(one or two runes burned in the block; every entry field and amount symbolic, within the supply invariant burned + amount <= u128::MAX)
 //# fns: index::updater::rune_updater::RuneUpdater::update
 //# assume: redb::Table and HashMap behave as finite maps (shims)
@@ -215,7 +220,7 @@ pub fn c08_update_adds_burns() {
 //# assume: redb::Table and HashMap behave as finite maps (shims); ordinals::varint::decode satisfies the contract proved by the C26 harnesses
 //# timeout: 1800
 #[cfg_attr(kani, kani::proof)]
-#[cfg_attr(kani, kani::unwind(5))]
+#[cfg_attr(kani, kani::unwind(40))]
 #[cfg_attr(kani, kani::stub(ordinals::varint::decode, vc::decode))]
 #[cfg_attr(kani, kani::stub(std::backtrace::Backtrace::capture, vc::backtrace_disabled))]
 pub fn c08_unallocated_moves_input_balances() {
